@@ -47,6 +47,14 @@ CHECKS = {
    text="hybsim histories ending in: snapshot of the memory tier, close(), up to 4 ops on the closed cache (inserts, removes, second close, lookups), reopen, get of every key; variants: drop without close, and 'process dies the instant close() returns' (held io; only device writes completed by then survive). Oracle: close resolves with Ok (twice), no device write after close returned, flush_on_close=false writes no entry data, every non-InMem resident entry hits with exactly its version after reopen (miss = violation), InMem residents miss. Hangs by quiescence.",
    note="Provisos enforced by construction and verified from the write log: resident set fits the flush buffer, no block reclaimed; entries that cannot be written at all are outside the claim. One known finding (LRU-pinned entry at close) tolerated by structural signature.",
    technique="model-based property testing on a deterministic simulated device incl. crash-at-return (proptest random)"),
+ "C10": dict(engine="hybsim", category="exploration", design="§5 C10",
+   text="Macro-op histories on HybridCache (simulated device, tombstone log on, both policies, 1-2 flushers): insert n keys, delete the n oldest live keys / n never-inserted keys with n from {1..6, 255, 256, 257, 300, 511, 512, 513, 100..700}, re-insert recently deleted keys, wait, graceful reopen, crash right after an acknowledged wait; tombstones bounded by the log capacity, device sized so nothing is reclaimed (verified from the write log). After every reopen and a final one: every deleted-and-not-reinserted key misses, every live key hits with its exact version.",
+   note="Identity hasher (no collisions). Log wrap-around (more tombstones than device pages) is outside the statement and not generated.",
+   technique="model-based property testing with restart cycles on a simulated device (proptest random)"),
+ "C04": dict(engine="hybsim", category="fault_enumeration", design="§5 C04",
+   text="Workloads (inserts, overwrites, deletes, memory evictions, wait) with held io and generated completion order; crash points are enumerated: an image after every completed device write plus every page-subset tear (all subsets for <= 3 pages, generated masks beyond) of every write in flight at that moment; every image is reopened in quiet mode and all keys read (validity; durability of acknowledged ops while nothing is reclaimed before or after the restart); selected images get a restart cycle with a second workload, flush, read-back and a second crash.",
+   note="Blob index is one page (default), so a page-granular tear cannot split an index rewrite. The device applies a completed write atomically and loses in-flight writes; completed writes are never reordered. 'Acknowledged' = a wait() issued after the op was handed to the disk tier has resolved.",
+   technique="crash-point and torn-write enumeration over generated workloads on a simulated device (proptest-generated workloads, enumerated faults)"),
 }
 
 NOT_YET = {
@@ -90,7 +98,7 @@ def main():
         "engines": [
             {"name": "memsim", "path": "/verif/harness/core/src/memsim.rs", "serves_properties": ["C05", "C13", "C14", "C16", "C17", "C18"],
              "kind_free_text": "single-threaded interpreter for foyer::Cache histories + event-driven reference model (memoracle.rs) + eviction reference models (evmodel.rs)"},
-            {"name": "hybsim", "path": "/verif/harness/core/src/hybsim.rs", "serves_properties": ["C01", "C12", "C15", "C17"],
+            {"name": "hybsim", "path": "/verif/harness/core/src/hybsim.rs", "serves_properties": ["C01", "C04", "C10", "C12", "C15", "C17"],
              "kind_free_text": "deterministic interpreter for HybridCache histories on a simulated device/io engine (simdev.rs) with harness-owned io completion order; oracles in hyboracle.rs; independent format reader fmtparse.rs"},
             {"name": "fetchsim", "path": "/verif/harness/core/src/fetchsim.rs", "serves_properties": ["C06", "C11", "C17"],
              "kind_free_text": "manual executor for get_or_fetch histories: harness futures for disk lookup / origin fetch, harness-driven runtime, protocol state machine as oracle"},
